@@ -23,10 +23,12 @@ func normalizeTaxIdentity(tID *tax.Identity) {
 	if tID == nil {
 		return
 	}
+	// always override for greece, and do so before the code is cleaned: the
+	// leading country codes removed are those of the identity as it is returned.
+	tID.Country = "EL"
 	// also allow for usage of "GR" which may be used in the tax code
 	// by accident.
 	tax.NormalizeIdentity(tID, l10n.GR)
-	tID.Country = "EL" // always override for greece
 }
 
 // validateTaxIdentity checks to ensure the tax code looks okay.
